@@ -11,8 +11,8 @@
 (*   tsrv{c,id}                      a write to the server: can -> HzeStart (in whatever      *)
 (*                                   caller) or WCancel; cr -> CleanupFires; hout -> ReadFwd  *)
 (*   msg{m}                          HzeMsg with that cause / WMsg with that exit status      *)
-(*   cur{v}                          cursor escape (compared with the spec's cursor when the  *)
-(*                                   pump's turn ends)                                        *)
+(*   cur{v}                          cursor escape: exactly the one the pump's turn writes    *)
+(*                                   (hide at Detect, show when the filter lets go)           *)
 (*   hout{k,id} hexit{code}          HelperOut / HelperExit (the driver commands the puppet)  *)
 (*   hstart{name} hgone hin{c,id}    late echoes from the puppet: they must be consistent     *)
 (*                                   with what the spec did earlier                           *)
@@ -32,16 +32,17 @@ VARIABLES l,          \* next line
           hq,         \* ids of the helper outputs not yet read (parallel to hlpQ)
           fwdIds,     \* chunks written to a live helper
           got,        \* chunk ids the puppet reported
-          echo,       \* [start, gone, hexit, expectCan, gotCan, obsCur, late]
+          echo,       \* [start, gone, hexit, expectCan, gotCan, late]
           stuck       \* [line, nocmd] of the first Stuck quiet point of this run (line 0: none)
 
 tv == <<l, run, pend, ipend, hq, fwdIds, got, echo, stuck>>
 tvars == <<vars, tv>>
 
-NoPend == [st |-> "none", k |-> "none", v |-> "none", start |-> "ok", id |-> 0, disp |-> "none", fwd |-> FALSE]
+NoPend == [st |-> "none", k |-> "none", v |-> "none", start |-> "ok", id |-> 0, disp |-> "none", fwd |-> FALSE,
+           cur |-> "same", seen |-> <<>>]
 NoIPend == [st |-> "none", k |-> "none", id |-> 0, disp |-> "none"]
 Echo0 == [start |-> FALSE, gone |-> FALSE, hexit |-> FALSE, expectCan |-> FALSE, gotCan |-> FALSE,
-          obsCur |-> "shown", late |-> FALSE]
+          late |-> FALSE]
 NoStuck == [line |-> 0, nocmd |-> FALSE]
 
 Ev == TraceLog[l]
@@ -69,27 +70,30 @@ TSrv == /\ IsEvent("srv") /\ pend.st = "none"
         /\ pend' = [NoPend EXCEPT !.st = "fed", !.k = Ev.k, !.v = Ev.v, !.start = Ev.st, !.id = Ev.id]
         /\ UNCHANGED vars /\ Keep(<<run, ipend, hq, fwdIds, got, echo, stuck>>)
 
+(* the cursor escape the pump's turn writes: hideCursor at Detect, showCursor when it lets go *)
+CurChange == IF cursor' = cursor THEN "same" ELSE IF cursor' = "hidden" THEN "hide" ELSE "show"
+
 TSrvDo ==
     /\ pend.st = "fed" /\ Silent
     /\ IF IsHdr(pend.k) /\ sess = "none"
        THEN /\ Detect(pend.k = "hdr1", pend.start, pend.v)
-            /\ pend' = [pend EXCEPT !.st = "done", !.disp = "pass"]
+            /\ pend' = [pend EXCEPT !.st = "done", !.disp = "pass", !.cur = CurChange]
        ELSE LET k == IF IsHdr(pend.k) THEN "data" ELSE KindOf(pend.k) IN
             /\ Out(k)
-            /\ pend' = [pend EXCEPT !.st = "done", !.disp = OutDisp(k), !.fwd = OutFwd(k)]
+            /\ pend' = [pend EXCEPT !.st = "done", !.disp = OutDisp(k), !.fwd = OutFwd(k), !.cur = CurChange]
     /\ Keep(<<run, ipend, hq, fwdIds, got, echo, stuck>>)
 
 TSrvDone ==
     /\ IsEvent("srvdone") /\ pend.st = "done" /\ Ev.id = pend.id
     /\ Ev.disp = pend.disp
-    /\ echo.obsCur = cursor
+    /\ pend.seen = (IF pend.cur = "same" THEN <<>> ELSE <<pend.cur>>)
     /\ fwdIds' = IF pend.fwd THEN fwdIds \cup {pend.id} ELSE fwdIds
     /\ pend' = NoPend
     /\ UNCHANGED vars /\ Keep(<<run, ipend, hq, got, echo, stuck>>)
 
 TCur == /\ IsEvent("cur") /\ pend.st # "none"
-        /\ echo' = [echo EXCEPT !.obsCur = IF Ev.v = "hide" THEN "hidden" ELSE "shown"]
-        /\ UNCHANGED vars /\ Keep(<<run, pend, ipend, hq, fwdIds, got, stuck>>)
+        /\ pend' = [pend EXCEPT !.seen = Append(pend.seen, Ev.v)]
+        /\ UNCHANGED vars /\ Keep(<<run, ipend, hq, fwdIds, got, echo, stuck>>)
 
 (* ---- input pump ---- *)
 TInp == /\ IsEvent("inp") /\ ipend.st = "none"
@@ -131,7 +135,10 @@ TCan ==
 TCr == /\ IsEvent("tsrv") /\ Ev.c = "cr" /\ CleanupFires
        /\ Keep(<<run, pend, ipend, hq, fwdIds, got, echo, stuck>>)
 
-TOO == /\ IsEvent("tsrv") /\ Ev.c = "oo" /\ up /\ srvFin /\ cliFin
+(* ensureOverAndOut writes OO *before* the chunk that completed the pair is forwarded: the echo may  *)
+(* precede the step (ReadFwd of the helper's fin) that sets the second flag.                        *)
+OOok == srvFin /\ (cliFin \/ (pcE = "read" /\ hlpQ # <<>> /\ Head(hlpQ) = "fin" /\ ~errOcc))
+TOO == /\ IsEvent("tsrv") /\ Ev.c = "oo" /\ up /\ OOok
        /\ UNCHANGED vars /\ Keep(<<run, pend, ipend, hq, fwdIds, got, echo, stuck>>)
 
 THoutFwd ==
@@ -177,7 +184,7 @@ THgone == /\ IsEvent("hgone") /\ hlp = "dead" /\ echo.start /\ ~echo.gone
 THin ==
     /\ IsEvent("hin")
     /\ \/ /\ Ev.c = "can" /\ hlpCan /\ echo' = [echo EXCEPT !.gotCan = TRUE] /\ UNCHANGED got
-       \/ /\ Ev.c = "oo" /\ ~up /\ srvFin /\ cliFin /\ UNCHANGED <<echo, got>>
+       \/ /\ Ev.c = "oo" /\ ~up /\ OOok /\ UNCHANGED <<echo, got>>
        \/ /\ Ev.c = "chunk"
           /\ Ev.id \in fwdIds \/ (pend.st = "done" /\ pend.fwd /\ pend.id = Ev.id)
           /\ got' = got \cup {Ev.id} /\ UNCHANGED echo
@@ -186,7 +193,7 @@ THin ==
 (* ---- silent internal steps ---- *)
 TSilent ==
     /\ Silent /\ More
-    /\ \/ EInit \/ Sleep100 \/ ReadEOF \/ Break \/ WaitReturns \/ WStore \/ WArm \/ Kill
+    /\ \/ EInit \/ Sleep100 \/ Launch \/ ReadEOF \/ Break \/ WaitReturns \/ WStore \/ WArm \/ Kill
        \/ (LaunchFail /\ hze' = hze)
        \/ (ReadErr /\ hze' = hze)
        \/ (ClientTimerFires /\ hze' = hze)
@@ -195,13 +202,13 @@ TSilent ==
     /\ Keep(<<run, pend, ipend, fwdIds, got, echo, stuck>>)
 
 TLaunch ==
-    /\ Silent /\ More /\ LaunchOK
+    /\ Silent /\ More /\ LaunchStore
     /\ echo' = [echo EXCEPT !.late = (echo.late \/ stopped)]
     /\ Keep(<<run, pend, ipend, hq, fwdIds, got, stuck>>)
 
 THzeCmd ==
     /\ Silent /\ More /\ HzeCmd
-    /\ echo' = [echo EXCEPT !.expectCan = (echo.expectCan \/ hlp = "run")]
+    /\ echo' = [echo EXCEPT !.expectCan = (echo.expectCan \/ (cmd /\ hlp = "run"))]
     /\ Keep(<<run, pend, ipend, hq, fwdIds, got, stuck>>)
 
 TReadIgnore ==
